@@ -271,6 +271,7 @@ def run(ck):
         ck.mc("MC_LimbField", "MC_LimbField_251.cfg", note="radix-2^4 x 2 limbs, p=251", workers=8)
     # --- Apalache: the u64 kernels as transcribed, for ALL limb vectors at full size
     ck.apalache("AP_AsBytes51", 2, "u64 as_bytes returns the canonical representative for every five 64-bit limbs")
+    ck.apalache("AP_AsBytes2625", 2, "u32 reduce + as_bytes returns the canonical representative for every ten 32-bit limbs (q in {0,1}, no u32 overflow)")
     ck.apalache("AP_Mul51", 2, "u64 mul contract (value, accumulators < 2^128, carries < 2^64, post-bounds) for all limbs < 2^54", cinit="CInit54")
     ck.apalache("AP_Mul51", 2, "kept counterexample: the contract fails for limbs < 2^55", cinit="CInit55", expect_violation=True)
     # --- conformance
